@@ -57,6 +57,7 @@ def gen(rng, tier, idx):
          'boundary_last': rng.random() < 0.5,
          'obs_cols': rng.random() < 0.6}
     return {'file': f, 'round_to_int': rng.random() < 0.75, 'explicit_mapper': rng.random() < 0.5,
+            'same_basename': rng.random() < 0.3,
             'use_output_dir': rng.random() < 0.4, 'kcfg': common.draw_kernel_cfg(rng), 'enumerate': True}
 
 
@@ -166,7 +167,9 @@ def call_validate(sb, scn, src, out_dir, tag):
     if scn['use_output_dir']:
         kw['output_dir'] = out_dir
     else:
-        kw['valid_h5ad_path'] = os.path.join(out_dir, 'valid_%s.h5ad' % tag)
+        # now and then the output carries the INPUT's file name, in another directory (raw/x.h5ad -> valid/x.h5ad)
+        name = os.path.basename(src) if scn.get('same_basename') else 'valid_%s.h5ad' % tag
+        kw['valid_h5ad_path'] = os.path.join(out_dir, name)
     return drivers.outcome_of(validate_h5ad, **kw)
 
 
